@@ -1,6 +1,6 @@
 //! Plain-HTTP forwarding through the real endpoint (`Core::listen` on a loopback port): a real HTTP/2 (TLS) or HTTP/3 (QUIC)
 //! client, a scripted origin on loopback.
-//! in : [version (2|3)] method uri headers req_body origin_stream origin_sizes        (`@A` in the uri = the origin's address)
+//! in : [version (2|3), client stream window (0 = 1 MB), read pause ms, initial silence of the client ms] method uri headers req_body origin_stream origin_sizes        (`@A` in the uri = the origin's address)
 //!        as in c17_run; the pieces of the origin's stream are written 1 ms apart, then the origin closes
 //! out: [996] | the tokens of c17_run: [result 0 ended | 1 not ended within 3 s | 2 reset] origin_received [] [status, ended]
 //!      headers client_body [ended, 0]            (`@A` put back in origin_received)
@@ -187,7 +187,9 @@ pub fn run(toks: Vec<Tok>) -> Vec<Tok> {
             }
             driver.abort();
         } else {
-            let Some(mut c) = crate::front::H3Client::connect(ep.addr, "localhost").await else { return vec![vec![996]] };
+            let window = toks[0].get(1).copied().filter(|w| *w > 0).unwrap_or(1_000_000) as u64;
+            let pause = toks[0].get(2).copied().unwrap_or(0) as u64;
+            let Some(mut c) = crate::front::H3Client::connect_with_window(ep.addr, "localhost", window).await else { return vec![vec![996]] };
             let u: http::Uri = uri.parse().unwrap();
             let mut hs: Vec<(Vec<u8>, Vec<u8>)> = vec![
                 (b":method".to_vec(), method.as_bytes().to_vec()),
@@ -204,8 +206,41 @@ pub fn run(toks: Vec<Tok>) -> Vec<Tok> {
                     c.send_body(id, ch, i + 1 == n).await;
                     c.drive(Duration::from_millis(1), |_| false).await;
                 }
-                c.drive(Duration::from_secs(4), |x| x.streams[&id].finished || x.streams[&id].reset || x.is_shut()).await;
+                let stall = toks[0].get(3).copied().unwrap_or(0) as u64;
+                if stall > 0 {
+                    // the client goes silent for a while right after its request: the endpoint runs the stream's window down
+                    tokio::time::sleep(Duration::from_millis(stall)).await;
+                }
+                if pause > 0 {
+                    // a slow reader: the connection is driven in short bursts with pauses in between
+                    let started = tokio::time::Instant::now();
+                    while !(c.streams[&id].finished || c.streams[&id].reset || c.is_shut()) && started.elapsed() < Duration::from_secs(20) {
+                        c.drive(Duration::from_millis(2), |x| x.streams[&id].finished || x.streams[&id].reset).await;
+                        tokio::time::sleep(Duration::from_millis(pause)).await;
+                    }
+                }
+                // (as long as bytes keep arriving the exchange is alive: the deadline is on silence, not on the whole transfer)
+                let mut seen = c.streams[&id].data.len();
+                let mut quiet_since = tokio::time::Instant::now();
+                let t0 = tokio::time::Instant::now();
+                loop {
+                    c.drive(Duration::from_millis(100), |x| x.streams[&id].finished || x.streams[&id].reset || x.is_shut()).await;
+                    let st = &c.streams[&id];
+                    if st.finished || st.reset || c.is_shut() {
+                        break;
+                    }
+                    if st.data.len() != seen {
+                        seen = st.data.len();
+                        quiet_since = tokio::time::Instant::now();
+                    }
+                    if quiet_since.elapsed() > Duration::from_secs(4) || t0.elapsed() > Duration::from_secs(60) {
+                        break;
+                    }
+                }
                 let st = c.streams[&id].clone();
+                if std::env::var("VERIF_DEBUG2").is_ok() {
+                    eprintln!("h3 client: {} bytes, finished={} reset={} ; {}", st.data.len(), st.finished, st.reset, c.debug_stats());
+                }
                 status = st.status() as u128;
                 resp_headers = st
                     .headers
